@@ -721,6 +721,19 @@ func (e *Env) call(x *ast.CallExpr) Val {
 			return Val{T: e.ex.loadLoc(cst, e.ex.locOfRef(v.T, t)), Ty: t}
 		}
 		panic(e.fail("unknown identifier %q (declaration %d not executed)", id.Name, n))
+	case "unbox":
+		// unbox(x, T): the value of dynamic type T held by the interface value x (e.g. an element of a ...any argument list)
+		v := e.eval(x.Args[0])
+		t := e.resolveType(x.Args[1])
+		if t == nil {
+			panic(e.fail("unbox(x, T): unknown type"))
+		}
+		switch t.Underlying().(type) {
+		case *types.Pointer, *types.Map, *types.Chan, *types.Signature, *types.Interface:
+			return Val{T: v.T, Ty: t}
+		}
+		srt := c.sortOf(t)
+		return Val{T: T(srt, "(%s %s)", e.ex.unboxFn(srt), v.T.S), Ty: t}
 	case "visited":
 		// visited(m, k): the range loop over map m has already produced key k (ghost state of the iteration)
 		m := e.eval(x.Args[0])
